@@ -158,6 +158,34 @@ def build():
     ], "w")
     cases.append(Case("cond_supports", p, [f32(0.0)], features={"fn", "cond", "supports"}))
 
+    # ---- C08: axis specifications of the Vmap combinator (tier "c08": only used by vlib/props/C08.py) ----------
+    vlane = Fn("vlane", ["m", "s"], [Sample("x", "x", normal, ["o.sum(m)", "s"])], "x * 2.0 + m[0]")
+    cases.append(Case("c08_axis1", Fn("c08_axis1", ["M", "s"], [
+        Sample("r", "v", VmapC(vlane, in_axes=(1, None)), ["M", "s"]),
+    ], "o.sum(r)"), [np.asarray([[0.1, -0.2], [0.3, 0.4], [0.5, -0.6]], dtype=np.float32), f32(0.75)],
+        features={"vmap", "axis1"}, tier="c08"))
+    cases.append(Case("c08_none_first", VmapC(sub, in_axes=(None, 0)), [f32(0.25), A(0.5, 1.5, 0.75)],
+                      features={"vmap", "none_first"}, tier="c08"))
+    dlane = Fn("dlane", ["d"], [Sample("x", "x", normal, ["d['a'] + d['b']", "1.0"])], "x + d['b']")
+    cases.append(Case("c08_dict_axes", VmapC(dlane, in_axes=({"a": 0, "b": None},)), [{"a": A(0.1, -0.2), "b": f32(0.5)}],
+                      features={"vmap", "pytree_axes"}, tier="c08"))
+    cases.append(Case("c08_nested_vmap", VmapC(VmapC(sub, in_axes=(0, None)), in_axes=(0, None)),
+                      [np.asarray([[0.1, -0.2, 0.3], [0.4, 0.5, -0.6]], dtype=np.float32), f32(0.75)],
+                      features={"vmap", "nested"}, tier="c08"))
+    cases.append(Case("c08_size_and_axes", VmapC(sub, in_axes=(0, None), axis_size=2), [A(0.1, -0.2), f32(0.75)],
+                      features={"vmap", "axis_size"}, tier="c08"))
+    slane = Fn("slane", ["m", "xs"], [Sample("fo", "s", ScanC(step, 2), ["m", "xs"])], "fo[0]")
+    cases.append(Case("c08_vmap_scan", VmapC(slane, in_axes=(0, None)), [A(0.1, -0.2), A(0.2, 0.3)],
+                      features={"vmap", "scan"}, tier="c08"))
+    clane = Fn("clane", ["m"], [Sample("w", "c", CondC(b0, b1), ["m > 0.0", "m"])], "w")
+    cases.append(Case("c08_vmap_cond", VmapC(clane, in_axes=(0,)), [A(0.1, -0.2)], features={"vmap", "cond"}, tier="c08"))
+    veclane = Fn("veclane", ["m", "sv"], [Sample("x", "x", normal, ["o.zeros(3) + m", "sv"])], "o.sum(x)")
+    cases.append(Case("c08_vmap_vecsite", VmapC(veclane, in_axes=(0, None)), [A(0.1, -0.2, 0.3), A(0.5, 1.0, 2.0)],
+                      features={"vmap", "rank"}, tier="c08"))
+    catlane = Fn("catlane", ["l"], [Sample("k", "k", categorical, ["l"])], "k")
+    cases.append(Case("c08_vmap_cat_axis1", VmapC(catlane, in_axes=(1,)),
+                      [np.asarray([[0.1, -0.2], [0.3, 0.4], [0.5, -0.6]], dtype=np.float32)], features={"vmap", "axis1", "categorical"}, tier="c08"))
+
     return cases
 
 
@@ -168,11 +196,14 @@ def cases(tier="quick"):
     global _CASES
     if _CASES is None:
         _CASES = build()
-    return [c for c in _CASES if tier == "thorough" or c.tier == "quick"]
+    if tier == "c08":
+        return [c for c in _CASES if c.tier == "c08"]
+    return [c for c in _CASES if c.tier == "quick" or (tier == "thorough" and c.tier == "thorough")]
 
 
 def get(name):
-    for c in cases("thorough"):
+    cases("quick")
+    for c in _CASES:
         if c.name == name:
             return c
     raise KeyError(name)
